@@ -159,7 +159,7 @@ def gen_line_or_scatter(rng, kind, tier):
     # options
     if case["c"] is None:
         r = rng.random()
-        if r < 0.4:
+        if r < 0.4 and (has_z or multi or rng.random() < 0.1):
             opts["colors"] = True
         elif r < 0.6:
             opts["colors"] = rng.choice(COLOR_LISTS)
@@ -278,7 +278,7 @@ def gen_histogram(rng, tier, auto=False):
     if rng.random() < 0.15:
         opts["stacked"] = True
     r = rng.random()
-    if r < 0.3:
+    if r < 0.3 and (has_z or multi or rng.random() < 0.1):
         opts["colors"] = True
         opts["colormap"] = rng.choice(["viridis", "plasma"])
     elif r < 0.45:
@@ -318,7 +318,7 @@ def gen_heatmap(rng, tier, auto=False):
         opts["colormap_reverse"] = True
     if rng.random() < 0.25:
         vals = sorted(c for c in raw["vars"]["h"]["cells"] if P.is_fin(c))
-        if len(vals) > 2:
+        if len(vals) > 3 and vals[1] < vals[-2]:
             opts["vmin"] = vals[1] / 4
             opts["vmax"] = vals[-2] / 4
     if rng.random() < 0.15:
